@@ -293,7 +293,7 @@ class TreeContextMixin:
                             return n
 
         scope_node = parent_scope(node)
-        if scope_node.type in ('funcdef', 'classdef'):
+        if scope_node.type in ('funcdef', 'lambdef', 'classdef'):
             colon = scope_node.children[scope_node.children.index(':')]
             if node.start_pos < colon.start_pos:
                 parent = node.parent
